@@ -4,13 +4,13 @@ Verdicts come from TLC.  This file only moves files around, runs tools, parses T
 output (state counts, the VIOL tuples the specifications print) and writes evidence."""
 import json, os, re, subprocess, sys, time, shutil, hashlib
 
-ROOT = "/verif"
+ROOT = os.path.realpath(os.path.join(os.path.dirname(os.path.abspath(__file__)), "..", ".."))
 BUILD = os.path.join(ROOT, "build")
 SPEC = os.path.join(ROOT, "spec")
 HARNESS_DIR = os.path.join(ROOT, "harness")
 HARNESS_BIN = os.path.join(BUILD, "target", "debug", "pv-harness")
 TLA_JARS = "/opt/veriftools/tla/tla2tools.jar:/opt/veriftools/tla/CommunityModules-deps.jar"
-REPO = "/repo"
+REPO = os.environ.get("PV_REPO", "/repo")
 
 
 class ToolError(Exception):
